@@ -119,7 +119,8 @@ class Run:
 
     def state(self):
         rl = self.rl
-        return f"{priv(rl, "_connection_state").name},{int(priv(rl, "_is_stopped"))}{int(priv(rl, "_zc_listening"))},{priv(rl, "_tries")}"
+        cstate, stopped, listening, tries = priv(rl, "_connection_state").name, int(priv(rl, "_is_stopped")), int(priv(rl, "_zc_listening")), priv(rl, "_tries")
+        return f"{cstate},{stopped}{listening},{tries}"
 
     def timer(self):
         t = priv(self.rl, "_connect_timer")
@@ -307,6 +308,7 @@ def predicate(steps, final):
     failures = 0
     started = stopped = in_flight = alive = False
     last_outcome = None            # of the latest attempt / session: "E" failed attempt, "C" connected, "D" session ended
+    wait_from = None               # (time, length, what) of the wait the latest failure / expected disconnect started
     listening = False              # a listener is registered with zeroconf (add / remove calls seen from outside)
     for i, (label, mlabels, evs, state, att) in enumerate(steps):
         before = now
@@ -358,6 +360,19 @@ def predicate(steps, final):
                 elif any(x == "D1" for x in evs):
                     if d - now != 5 * U:
                         v.append(("C18/cooldown", f"after an expected disconnect the retry was scheduled {(d - now) / U} s later, expected 5 s"))
+        # the wait that a failure (or an expected disconnect) starts is the wait that ends it: when the next attempt is started
+        # by the retry timer, it comes exactly the back-off (cool-down) after that failure - not a timer left over from before
+        if "E" in evs and "A" not in evs:
+            nfail = failures_after(failures, label, evs)
+            wait_from = (now, (60 if nfail >= 100 else min(round(1.8 ** nfail), 60)) * U, f"failure #{nfail}")
+        elif any(x == "D1" for x in evs) and "A" not in evs:
+            wait_from = (now, 5 * U, "an expected disconnect")
+        elif "A" in evs:
+            if label == "timer" and wait_from is not None and now - wait_from[0] != wait_from[1]:
+                v.append(("C18/backoff", f"the retry timer started an attempt {(now - wait_from[0]) / U} s after {wait_from[2]}, expected {wait_from[1] / U} s"))
+            wait_from = None
+        if label in ("stop", "start"):
+            wait_from = None
         # every attempt has a cause, at the right time
         if label == "adv" and att:
             v.append(("C18/attempt-without-cause", f"a connect attempt started at {att[0] / U} s while the manager was only waiting (no timer due, no record, no call)"))
@@ -590,6 +605,61 @@ def name_forms_probe(name, address):
     return simnet.run(go)
 
 
+def owned_engine_restart_probe(cycles):
+    """A manager that owns its mDNS engine (none supplied by the application): stop() closes the engine, a later start() must work
+    with a live one.  After `cycles` stop()/start() rounds and a failed attempt, a matching record delivered through the engines
+    that are alive starts an attempt at once.  Returns a description of what happened."""
+    def go(loop):
+        async def inner():
+            import zeroconf
+            from unittest.mock import patch as _patch
+            from zeroconf import DNSPointer
+            from zeroconf.const import _TYPE_PTR, _CLASS_IN
+            from aioesphomeapi.core import APIConnectionError
+            from aioesphomeapi.reconnect_logic import ReconnectLogic
+            from aioesphomeapi.zeroconf import ZeroconfManager
+            log, engines = [], []
+
+            class OwnedZc(FakeAioZc):
+                def __init__(self, *a, **kw):
+                    super().__init__(log)
+                    engines.append(self)
+            with _patch("aioesphomeapi.zeroconf.AsyncZeroconf", OwnedZc):
+                zcm = ZeroconfManager()
+                cli = StubClient(loop, log, zcm)
+
+                async def cb(*a):
+                    pass
+                rl = ReconnectLogic(client=cli, on_connect=cb, on_disconnect=cb, on_connect_error=cb, name="dev")
+                for _ in range(cycles + 1):
+                    await rl.start()
+                    await simnet.drain(loop)
+                    if cli.pending is None:
+                        return "no attempt after start()"
+                    cli.pending[1].set_exception(APIConnectionError("nope"))
+                    await simnet.drain(loop)
+                    if _ < cycles:
+                        await rl.stop()
+                        await simnet.drain(loop)
+                live = [e for e in engines if not e.closed]
+                n0 = len(cli.attempt_times)
+                rec = DNSPointer("_esphomelib._tcp.local.", _TYPE_PTR, _CLASS_IN, 1000, "dev._esphomelib._tcp.local.")
+                for e in live:
+                    for listener in list(e.zeroconf.listeners):
+                        listener.async_update_records(None, 0.0, [zeroconf.RecordUpdate(rec, None)])
+                await simnet.drain(loop)
+                got = len(cli.attempt_times) - n0
+                on_closed = sum(len(e.zeroconf.listeners) for e in engines if e.closed)
+                await rl.stop()
+                await simnet.drain(loop)
+                for t in asyncio.all_tasks(loop):
+                    if t is not asyncio.current_task():
+                        t.cancel()
+                return f"{got} attempt(s) at once; engines created {len(engines)}, alive while waiting {len(live)}, listeners on closed engines {on_closed}"
+        return inner()
+    return simnet.run(go)
+
+
 def long_failure_run(n):
     """n consecutive failed attempts: after every single one the next attempt comes, min(round(1.8^k), 60) s later."""
     def go(loop):
@@ -637,6 +707,16 @@ def run_integration_probes(rep):
             rep.violation("C18/record-ignored", f"ReconnectLogic(name={name!r}) for a client addressed {address!r}: one attempt failed, then a matching mDNS record for the device "
                           f"arrives while it is waiting: {res} (expected one attempt at once, listener removed by stop())",
                           {"kind": "name-forms", "name": name, "address": address})
+    for cycles in (0, 1, 2):
+        res = owned_engine_restart_probe(cycles)
+        rep.case(("owned-engine-restart", cycles), True, sample={"owned_engine_restart": cycles, "result": res})
+        rep.bump("probe:owned-engine-restart")
+        if not res.startswith("1 attempt(s) at once"):
+            rep.violation("C18/record-ignored", f"a manager that creates its own mDNS engine, {cycles} stop()/start() round(s), one failed attempt, then a matching record "
+                          f"delivered through the live engine(s): {res} (expected one attempt at once)", {"kind": "owned-engine-restart", "cycles": cycles})
+        elif "listeners on closed engines 0" not in res:
+            rep.violation("C18/listener-on-closed-engine", f"a manager that creates its own mDNS engine, {cycles} stop()/start() round(s): {res}",
+                          {"kind": "owned-engine-restart", "cycles": cycles})
     bad = long_failure_run(1300)
     rep.case(("long-failure-run", 1300), True, sample={"long_failure_run": 1300, "problem": bad})
     rep.bump("probe:long-failure-run")
@@ -751,6 +831,10 @@ def run(rep, tier, seed):
 
 def replay(path):
     d = json.loads(open(path).read())["replay"]
+    if d.get("kind") == "owned-engine-restart":
+        common.setup_impl_path()
+        print(owned_engine_restart_probe(d["cycles"]))
+        return 0
     if d.get("kind") == "name-forms":
         print(name_forms_probe(d["name"], d["address"]))
         return 0
